@@ -1,42 +1,69 @@
 /-
   BB.Lemmas.ErrRead — `read_lines` numbers lines correctly: every `Line` it produces, and the `Line`
   of every AssemblerError it raises (missing include file, malformed include line), carries the path
-  of the file the text was read from and the 1-based index of the line among that file's
-  `splitlines()`; at any include depth.
+  of the file the text was read from, the 1-based index of the line among that file's
+  `splitlines()`, and that line's TEXT as contents; at any include depth.
 -/
 import BB.Lemmas.ErrFront
 namespace BB.Lemmas
 open BB
 
-/-- `l` is numbered as line `k+1` of the text `src` of the file `path` -/
-def LineOfFile (path : String) (src : List Char) (l : Line) : Prop :=
-  l.file = path ∧ ∃ k raw, (splitLines src)[k]? = some raw ∧ l.number = k + 1
+/-- the contents `read_lines` gives the `Line` made from the raw line `raw`: the raw text itself —
+    or, for an `include_bytes` line only, what asm.py rewrites it to: the line's own keyword, the
+    path of a readable file of `fs` and that file's size (`include_bytes <path> <size>`) -/
+def ContentsOf (fs : FS) (raw : List Char) (c : String) : Prop :=
+  c = String.ofList raw ∨
+  ∃ kw rel p bs, ("include_bytes ".toList).isPrefixOf (lowerL raw) = true ∧ splitWs raw = [kw, rel] ∧
+    fs.readAt p = some bs ∧ c = String.ofList kw ++ " " ++ p ++ " " ++ toString bs.length
 
-/-- `l` is a correctly numbered line of some (ASCII) file of the filesystem -/
+/-- `l` is line `l.number` (1-based) of the text `src` of the file `path`, AND ITS CONTENTS ARE THAT
+    LINE'S TEXT: `(splitLines src)[l.number - 1] = raw` and `l.contents` is `raw` (`ContentsOf`: or the
+    rewritten form of an include_bytes line `raw`) -/
+def LineOfFile (fs : FS) (path : String) (src : List Char) (l : Line) : Prop :=
+  l.file = path ∧ ∃ raw, 1 ≤ l.number ∧ (splitLines src)[l.number - 1]? = some raw ∧ ContentsOf fs raw l.contents
+
+/-- the same with the contents being exactly the raw text of the line: what holds for the `Line`
+    of every AssemblerError `read_lines` itself raises -/
+def RawLineOfFile (path : String) (src : List Char) (l : Line) : Prop :=
+  l.file = path ∧ 1 ≤ l.number ∧ (splitLines src)[l.number - 1]? = some l.contents.toList
+
+theorem RawLineOfFile.lineOfFile {fs : FS} {path : String} {src : List Char} {l : Line}
+    (h : RawLineOfFile path src l) : LineOfFile fs path src l :=
+  ⟨h.1, l.contents.toList, h.2.1, h.2.2, Or.inl (by simp)⟩
+
+/-- `l` is a correctly numbered line, with its text, of some file of the filesystem -/
 def FromFS (fs : FS) (l : Line) : Prop :=
-  ∃ p bs src, fs.readAt p = some bs ∧ bytesToText bs = some src ∧ LineOfFile p src l
+  ∃ p bs src, fs.readAt p = some bs ∧ bytesToText bs = some src ∧ LineOfFile fs p src l
 
-/-- result of a reader: all lines produced, and the line of an AssemblerError, satisfy `Q` -/
-def ReadOK (r : Except Err (List Line)) (Q : Line → Prop) : Prop :=
-  (∀ ls, r = .ok ls → ∀ l ∈ ls, Q l) ∧ (∀ ln, r = .error (.asm ln) → Q ln)
+/-- … with exactly the raw text as contents -/
+def RawFromFS (fs : FS) (l : Line) : Prop :=
+  ∃ p bs src, fs.readAt p = some bs ∧ bytesToText bs = some src ∧ RawLineOfFile p src l
 
-theorem ReadOK.internal {Q : Line → Prop} {s : String} : ReadOK (.error (.internal s)) Q :=
+theorem RawFromFS.fromFS {fs : FS} {l : Line} (h : RawFromFS fs l) : FromFS fs l := by
+  obtain ⟨p, bs, src, h1, h2, h3⟩ := h
+  exact ⟨p, bs, src, h1, h2, h3.lineOfFile⟩
+
+/-- result of a reader: all lines produced satisfy `Q`, the line of an AssemblerError satisfies `E` -/
+def ReadOK (r : Except Err (List Line)) (Q E : Line → Prop) : Prop :=
+  (∀ ls, r = .ok ls → ∀ l ∈ ls, Q l) ∧ (∀ ln, r = .error (.asm ln) → E ln)
+
+theorem ReadOK.internal {Q E : Line → Prop} {s : String} : ReadOK (.error (.internal s)) Q E :=
   ⟨fun ls h => (by cases h), fun ln h => (by injection h with h; cases h)⟩
 
-theorem ReadOK.unsupported {Q : Line → Prop} {s : String} : ReadOK (.error (.unsupported s)) Q :=
+theorem ReadOK.unsupported {Q E : Line → Prop} {s : String} : ReadOK (.error (.unsupported s)) Q E :=
   ⟨fun ls h => (by cases h), fun ln h => (by injection h with h; cases h)⟩
 
-theorem ReadOK.asm {Q : Line → Prop} {l : Line} (h : Q l) : ReadOK (.error (.asm l)) Q :=
+theorem ReadOK.asm {Q E : Line → Prop} {l : Line} (h : E l) : ReadOK (.error (.asm l)) Q E :=
   ⟨fun ls h' => (by cases h'), fun ln h' => (by
     simp only [Except.error.injEq, Err.asm.injEq] at h'; rw [← h']; exact h)⟩
 
-theorem ReadOK.mono {r : Except Err (List Line)} {Q Q' : Line → Prop} (h : ReadOK r Q)
-    (hq : ∀ l, Q l → Q' l) : ReadOK r Q' :=
-  ⟨fun ls hr l hl => hq l (h.1 ls hr l hl), fun ln hr => hq ln (h.2 ln hr)⟩
+theorem ReadOK.mono {r : Except Err (List Line)} {Q Q' E E' : Line → Prop} (h : ReadOK r Q E)
+    (hq : ∀ l, Q l → Q' l) (he : ∀ l, E l → E' l) : ReadOK r Q' E' :=
+  ⟨fun ls hr l hl => hq l (h.1 ls hr l hl), fun ln hr => he ln (h.2 ln hr)⟩
 
-theorem ReadOK.append {r1 r2 : Except Err (List Line)} {Q : Line → Prop} (h1 : ReadOK r1 Q)
-    (h2 : ReadOK r2 Q) :
-    ReadOK (do let a ← r1; let b ← r2; pure (a ++ b)) Q := by
+theorem ReadOK.append {r1 r2 : Except Err (List Line)} {Q E : Line → Prop} (h1 : ReadOK r1 Q E)
+    (h2 : ReadOK r2 Q E) :
+    ReadOK (do let a ← r1; let b ← r2; pure (a ++ b)) Q E := by
   cases r1 with
   | error e =>
     refine ⟨fun ls h => by simp [bind, Except.bind] at h, ?_⟩
@@ -59,8 +86,8 @@ theorem ReadOK.append {r1 r2 : Except Err (List Line)} {Q : Line → Prop} (h1 :
       · exact h1.1 a rfl l hl
       · exact h2.1 b rfl l hl
 
-theorem ReadOK.cons {r : Except Err (List Line)} {Q : Line → Prop} {l0 : Line} (h0 : Q l0)
-    (h : ReadOK r Q) : ReadOK (do let more ← r; pure (l0 :: more)) Q := by
+theorem ReadOK.cons {r : Except Err (List Line)} {Q E : Line → Prop} {l0 : Line} (h0 : Q l0)
+    (h : ReadOK r Q E) : ReadOK (do let more ← r; pure (l0 :: more)) Q E := by
   cases r with
   | error e =>
     refine ⟨fun ls h' => by simp [bind, Except.bind] at h', ?_⟩
@@ -80,9 +107,11 @@ theorem ReadOK.cons {r : Except Err (List Line)} {Q : Line → Prop} {l0 : Line}
 /-- the loop over the lines of one file, given the claim for the files it includes (`ihF`) -/
 theorem go_numbered (fs : FS) (dirs : List String) (fuel : Nat) (path : String) (cd : List String)
     (src : List Char)
-    (ihF : ∀ p b s, ReadOK (readLinesAux fs dirs fuel p b s) (fun l => LineOfFile p s l ∨ FromFS fs l)) :
+    (ihF : ∀ p b s, ReadOK (readLinesAux fs dirs fuel p b s) (fun l => LineOfFile fs p s l ∨ FromFS fs l)
+      (fun l => RawLineOfFile p s l ∨ RawFromFS fs l)) :
     ∀ (raws pre : List (List Char)) (n : Nat), splitLines src = pre ++ raws → n = pre.length + 1 →
-      ReadOK (readLinesAux.go fs dirs fuel path cd n raws) (fun l => LineOfFile path src l ∨ FromFS fs l) := by
+      ReadOK (readLinesAux.go fs dirs fuel path cd n raws) (fun l => LineOfFile fs path src l ∨ FromFS fs l)
+        (fun l => RawLineOfFile path src l ∨ RawFromFS fs l) := by
   intro raws
   induction raws with
   | nil =>
@@ -92,10 +121,12 @@ theorem go_numbered (fs : FS) (dirs : List String) (fuel : Nat) (path : String) 
   | cons raw rest ih =>
     intro pre n hsplit hn
     have hrest := ih (pre ++ [raw]) (n + 1) (by rw [hsplit]; simp) (by simp [hn])
-    have hline : ∀ c, LineOfFile path src { file := path, number := n, contents := c } := by
-      intro c
-      refine ⟨rfl, pre.length, raw, ?_, hn⟩
-      rw [hsplit]; simp
+    have hidx : (splitLines src)[n - 1]? = some raw := by
+      rw [hsplit, hn]; simp
+    have hraw : RawLineOfFile path src { file := path, number := n, contents := String.ofList raw } :=
+      ⟨rfl, by show 1 ≤ n; omega, by show (splitLines src)[n - 1]? = _; rw [hidx]; simp⟩
+    have hline : ∀ c, ContentsOf fs raw c → LineOfFile fs path src { file := path, number := n, contents := c } :=
+      fun c hc => ⟨rfl, raw, by show 1 ≤ n; omega, hidx, hc⟩
     rw [readLinesAux.go.eq_2]
     split
     · exact hrest
@@ -106,7 +137,7 @@ theorem go_numbered (fs : FS) (dirs : List String) (fuel : Nat) (path : String) 
         · split
           · exact ReadOK.unsupported
           · split
-            · exact ReadOK.asm (Or.inl (hline _))
+            · exact ReadOK.asm (Or.inl hraw)
             · split
               · exact ReadOK.internal
               · split
@@ -114,29 +145,36 @@ theorem go_numbered (fs : FS) (dirs : List String) (fuel : Nat) (path : String) 
                 · split
                   · exact ReadOK.unsupported
                   · refine ReadOK.append ?_ hrest
-                    refine (ihF _ _ _).mono ?_
-                    intro l hl
-                    rcases hl with hl | hl
-                    · exact Or.inr ⟨_, _, _, by assumption, by assumption, hl⟩
-                    · exact Or.inr hl
-        · exact ReadOK.asm (Or.inl (hline _))
+                    refine (ihF _ _ _).mono ?_ ?_
+                    · intro l hl
+                      rcases hl with hl | hl
+                      · exact Or.inr ⟨_, _, _, by assumption, by assumption, hl⟩
+                      · exact Or.inr hl
+                    · intro l hl
+                      rcases hl with hl | hl
+                      · exact Or.inr ⟨_, _, _, by assumption, by assumption, hl⟩
+                      · exact Or.inr hl
+        · exact ReadOK.asm (Or.inl hraw)
       · split
         · -- include_bytes
+          rename_i hib
           split
-          · split
+          · rename_i kw rel hsw
+            split
             · exact ReadOK.unsupported
             · split
-              · exact ReadOK.asm (Or.inl (hline _))
+              · exact ReadOK.asm (Or.inl hraw)
               · split
                 · exact ReadOK.unsupported
-                · exact ReadOK.cons (Or.inl (hline _)) hrest
-          · exact ReadOK.asm (Or.inl (hline _))
-        · exact ReadOK.cons (Or.inl (hline _)) hrest
+                · exact ReadOK.cons (Or.inl (hline _ (Or.inr ⟨kw, rel, _, _, hib, hsw, by assumption, rfl⟩))) hrest
+          · exact ReadOK.asm (Or.inl hraw)
+        · exact ReadOK.cons (Or.inl (hline _ (Or.inl rfl))) hrest
 
-/-- **Lines are numbered per file, 1-based, at every include depth.** -/
+/-- **Lines are numbered per file, 1-based, and carry their own text, at every include depth.** -/
 theorem readLinesAux_numbered (fs : FS) (dirs : List String) :
     ∀ (fuel : Nat) (path base : String) (src : List Char),
-      ReadOK (readLinesAux fs dirs fuel path base src) (fun l => LineOfFile path src l ∨ FromFS fs l) := by
+      ReadOK (readLinesAux fs dirs fuel path base src) (fun l => LineOfFile fs path src l ∨ FromFS fs l)
+        (fun l => RawLineOfFile path src l ∨ RawFromFS fs l) := by
   intro fuel
   induction fuel with
   | zero =>
